@@ -2,6 +2,7 @@
   C11 for the numpy back end model: `detect_type`, `infer_type` and the cast data are properties of the bag of elements.
 -/
 import VProofs.Obligations.NumpyBag
+import VProofs.Obligations.NumpyRepeat
 namespace V.NumpyProps
 open V V.Gen V.Np
 
@@ -42,5 +43,54 @@ example : InvN azz := by
   · intro x hx c hc
     simp only [azz, List.mem_cons, List.not_mem_nil, or_false] at hx
     rcases hx with rfl | rfl <;> simp [NElem.ofComplex, NElem.blank] at hc
+
+end V.NumpyProps
+
+namespace V.NumpyProps
+open V V.Gen V.Np
+
+/-- **detect_type is unchanged by repeating the array**, for every typeset built from the table -/
+theorem C11_detect_repeat_numpy (o : NpOracle) (b : Built Ty) (f : Nat) (a : NArr) (k : Nat)
+    (hw : ∀ x ∈ a.elems, ElemWF a.kind x) :
+    (ptraverse (numpyTS o b).idSucc f b.root (repeatArr a k)).2 = (ptraverse (numpyTS o b).idSucc f b.root a).2 := by
+  have l0 := numpyTS_L0 o b
+  refine (C11.C11_sim (numpyTS o b).idSucc (fun x y => x = repeatArr y k ∧ ∀ e ∈ y.elems, ElemWF y.kind e) ?_ ?_ f b.root _ a ⟨rfl, hw⟩).1
+  · intro n r hr x y h
+    have ⟨hm, hi⟩ := mem_idSucc.mp hr
+    have ⟨hg, _⟩ := l0 n r hm hi
+    rw [hg x, hg y, h.1]
+    exact containsB_repeat_np r.dst y k h.2
+  · intro n r hr x y h _
+    have ⟨hm, hi⟩ := mem_idSucc.mp hr
+    have ⟨_, hxf⟩ := l0 n r hm hi
+    rw [hxf x, hxf y]; exact h
+
+/-- **infer_type is unchanged by repeating the array, and the cast of the repetition is the repetition of the cast**
+(hypotheses: `InvN` on the array — the element facts of `goodB` —, and `pd.to_datetime` parses element by element) -/
+theorem C11_infer_repeat_numpy (o : NpOracle) (hd : DtRepN o) (hdi : ∀ a r, o.dtWhole a = .ok r → InvN r) (b : Built Ty)
+    (f : Nat) (a : NArr) (k : Nat) (hI : InvN a) :
+    (ptraverse (numpyTS o b).succ f b.root (repeatArr a k)).2 = (ptraverse (numpyTS o b).succ f b.root a).2 ∧
+    (ptraverse (numpyTS o b).succ f b.root (repeatArr a k)).1 = repeatArr (ptraverse (numpyTS o b).succ f b.root a).1 k := by
+  have l0 := numpyTS_L0 o b
+  have key := C11.C11_sim (numpyTS o b).succ (fun x y => x = repeatArr y k ∧ InvN y) ?_ ?_ f b.root (repeatArr a k) a ⟨rfl, hI⟩
+  · exact ⟨key.1, key.2.1⟩
+  · intro n r hr x y h
+    by_cases hi : r.inferential = true
+    · rcases inf_rel_specN hr hi with ⟨g, t, hgd, _, hiff, _⟩ | ⟨_, hnone⟩
+      · rw [Bool.eq_iff_iff, hiff x, hiff y, h.1, guard_repeat o hd n r.dst g hgd y k]
+      · rw [hnone x, hnone y]
+    · have hi' : r.inferential = false := by simpa using hi
+      rw [(l0 n r hr hi').1 x, (l0 n r hr hi').1 y, h.1]
+      exact containsB_repeat_np r.dst y k (fun e he => elemWF_of (h.2.1 e he))
+  · intro n r hr x y h hgx
+    by_cases hi : r.inferential = true
+    · rcases inf_rel_specN hr hi with ⟨g, t, _, htd, _, hxf⟩ | ⟨_, hnone⟩
+      · rw [hxf x, hxf y, h.1, xform_repeat o hd n r.dst t htd y k]
+        cases hty : t y with
+        | ok d => exact ⟨rfl, xform_invN o hdi n r.dst t htd y d h.2 hty⟩
+        | error e => exact ⟨rfl, h.2⟩
+      · rw [hnone x] at hgx; cases hgx
+    · have hi' : r.inferential = false := by simpa using hi
+      rw [(l0 n r hr hi').2 x, (l0 n r hr hi').2 y]; exact h
 
 end V.NumpyProps
